@@ -643,6 +643,9 @@ func propSpecs() map[string]*PropSpec {
 			fm(c20, "H_C20_nest", o, i, fmt.Sprintf("nesting matrix: container %d inside container %d (0 quote, 1 bullet, 2 ordered) x 3 contents with blank lines", i, o), "quick")
 		}
 	}
+	for o, nm := range []string{"a paragraph", "an ATX heading", "a fenced code block", "a block quote", "the paragraph of a tight bullet item (nested)", "the same inside a block quote"} {
+		fm(c20, "H_C20_loose_after", int64(o), 0, "loose two-item list (bullet or ordered from 2) directly after "+nm, "quick")
+	}
 	for o, nm := range []string{"a block quote", "a bullet item", "an ordered item", "a block quote inside a bullet item"} {
 		fm(c20, "H_C20_span", int64(o), 0, "paragraph inside "+nm+" with one of eight inline constructs (emphasis, strong, nested, link text, code span, image, raw tag) continuing on the second line", "quick")
 	}
